@@ -95,6 +95,8 @@ def make_feval(fam, p, sign=1.0, deriv=False, constraint=None):
                 r = r.d
             else:
                 r = p.Calculate(Point(list(xs), []), fv).value
+                if not isinstance(r, I):
+                    r = I.lift(r)          # a constant returned on a decided branch
         return r if sign > 0 else -r
     return feval
 
@@ -175,6 +177,39 @@ def job_tables(arg):
 
 
 def job_optimum(arg):
+    """the interval obligations; if the evaluated code has a data-dependent branch the interval evaluation does not apply
+    (undecided) and the real Calculate is sampled natively for a failing input (bounded, only a refutation counts)"""
+    try:
+        return job_optimum_ival(arg)
+    except TypeError as e:
+        if "interval" not in str(e):
+            raise
+    fam, args = arg
+    cls = families()[fam][0]
+    p = cls(*args)
+    tag = "%s%s" % (fam, tuple(args))
+    lo = np.array([float(t) for t in p.lowerBoundOfFloatVariables])
+    up = np.array([float(t) for t in p.upperBoundOfFloatVariables])
+    xs = [float(t) for t in p.knownOptimum[0].point.floatVariables]
+    fstar = float(p.knownOptimum[0].functionValues[0].value)
+
+    def calc(x):
+        return float(p.Calculate(Point(np.array(x, dtype=np.double), []), FunctionValue()).value)
+    out, und = [], ["%s: Calculate has a data-dependent branch on the point: interval evaluation not applicable" % tag]
+    v = calc(xs)
+    if abs(v - fstar) > 1e-4 * max(1.0, abs(fstar)):
+        out.append(dict(what="%s: objective at the declared optimum is %.7f, declared value %.7f" % (tag, v, fstar)))
+        return (fam, args, out, und)
+    rnd = np.random.RandomState(4242)
+    pts = lo + rnd.rand(4000, len(lo)) * (up - lo)
+    best, bx = min(((calc(x), list(map(float, x))) for x in pts), key=lambda t: t[0])
+    if best < fstar - 2e-3 * max(1.0, abs(fstar)):
+        out.append(dict(what="%s: f(%s) = %.7f is below the declared optimum %.7f by more than the tolerance (native sample)"
+                             % (tag, bx, best, fstar)))
+    return (fam, args, out, und)
+
+
+def job_optimum_ival(arg):
     """C10 for the families whose Calculate runs on intervals: value at the declared optimum, no point lower by more than
     the tolerance, a global minimiser within 0.5% of the box side of the declared point"""
     fam, args = arg
